@@ -45,10 +45,13 @@ def run_one(major, minor, name, expected, login, password, invalid, order, cuts,
     cresp = simnet.plain_frame(pb.ConnectResponse(invalid_password=invalid))
     frames = {"h": [hello], "hc": [hello, cresp], "ch": [cresp, hello], "c": [cresp], "hhc": [hello, hello, cresp]}[order]
     stream = b"".join(frames)
+    if hangup == "discreq":
+        # the device asks to disconnect in the same read as its answer (no session exists: the stop callback stays silent)
+        stream += simnet.plain_frame(pb.DisconnectRequest())
     pts = [0] + sorted(set(c for c in cuts if 0 < c < len(stream))) + [len(stream)]
     for a, b in zip(pts, pts[1:]):
         net.feed(stream[a:b])
-        if hangup and b == len(stream):
+        if hangup in ("eof", "reset") and b == len(stream):
             # the device hangs up right after its answer (what a device does after rejecting a password): the last chunk and
             # the end of the connection reach the client in the same loop turn, before the connect task resumes
             net.eof() if hangup == "eof" else net.reset()
@@ -196,7 +199,7 @@ def run(ck: Check):
     # the same in-order exchanges with the device hanging up in the turn of its last answer
     for c in list(cases):
         if c[7] in ("h", "hc") and (c[7] == "hc" or not c[4]) and c[8] != "bytes" and (thorough or rng.random() < 0.35):
-            cases.append(c[:9] + (rng.choice(["eof", "reset"]),))
+            cases.append(c[:9] + (rng.choice(["eof", "reset", "discreq"]),))
     lines, results = [], []
     dist = {"cases": len(cases), "accepted": 0, "version": 0, "badName": 0, "invalidAuth": 0, "other": 0, "orders": {},
             "hangups": sum(1 for c in cases if c[9])}
